@@ -797,6 +797,12 @@ func (ctx *Context) evaluate() {
 			if ctx.Error != nil {
 				return
 			}
+		case typeStoreNameLocal:
+			// this.x = v，与 push.this + attr.get 读取的是同一处(当前上下文的局部变量)
+			v := e.stack[e.top-1].Clone()
+			name := code.Value.(string)
+
+			ctx.StoreNameLocal(name, v)
 
 		case typeJe, typeJeDup:
 			v := stackPop()
